@@ -322,7 +322,7 @@ func c19Impact(r *rand.Rand) Case {
 func init() {
 	register(&Prop{
 		ID:   "C19",
-		Rule: "overlays of 1-3 layers over a pool of 5 leaf keys (a, b, c.d, e, f.g); string values are templates mentioning later pool keys (acyclic), unknown keys, defaults, repeated mentions, unterminated placeholders, defaults containing placeholders, look-alike keys and default forms before a plain mention, adjacent placeholders (unknown first), placeholder-like noise, a closing brace before the first placeholder; resolvers built from builders that are re-configured afterwards; impact analysis also through a document set changed between two calls on one analysis object; plus ints/bools/plain strings. kinds: dependency (source + 0-2 reference overlays; 20 repeated runs must give equal reports; AllKeys = OrphanKeys ⊎ keys(Map)), placeholder (key filters: all / prefix c / not a; 20 repeated runs), impact (requested key subsets incl. an unknown key). Sorted fields compared exactly, coordinate lists as multisets. Non-trivial: some value mentions >= 2 keys. Distinct by Gallina term. Keys defined as the empty string, a key below a mapping inside a list, layers that disagree about the kind of a node.",
+		Rule: "overlays of 1-3 layers over a pool of 5 leaf keys (a, b, c.d, e, f.g); string values are templates mentioning later pool keys (acyclic), unknown keys, defaults, repeated mentions, unterminated placeholders, defaults containing placeholders, look-alike keys and default forms before a plain mention, adjacent placeholders (unknown first), placeholder-like noise, a closing brace before the first placeholder; resolvers built from builders that are re-configured afterwards; impact analysis also through a document set changed between two calls on one analysis object; plus ints/bools/plain strings. kinds: dependency (source + 0-2 reference overlays; 20 repeated runs must give equal reports; AllKeys = OrphanKeys ⊎ keys(Map)), placeholder (key filters: all / prefix c / not a; 20 repeated runs), impact (requested key subsets incl. an unknown key). Sorted fields compared exactly, coordinate lists as multisets. Non-trivial: some value mentions >= 2 keys. Distinct by Gallina term. Keys defined as the empty string, a key below a mapping inside a list, layers that disagree about the kind of a node. Placeholder names computed by a nested placeholder, mentions of items of lists nested in lists, reference documents passed as a prefix of a caller-owned slice and then in full.",
 		Gen: func(r *rand.Rand, tier string, idx int) Case {
 			switch idx % 3 {
 			case 0:
